@@ -26,7 +26,7 @@ import (
 // racing with / following Close return and do not panic.
 
 type closeSc struct {
-	eps      []string // custom | customBW | tcps | udps | tcpc-up | tcpc-down | udpc | serial-up | serial-down | bcast
+	eps      []string // custom | customBW | customRF | tcps | udps | tcpc-up | tcpc-down | udpc | serial-up | serial-down | bcast
 	consumer string   // run | stop<N>
 	traffic  int      // inbound frames per channel
 	writers  int
@@ -233,7 +233,7 @@ func runCloseScenario(sc closeSc) (obs closeObs) {
 		port int
 	}
 	var eps []gomavlib.EndpointConf
-	var customs []*memConn
+	var customs, rfConns []*memConn
 	var ports []portRef
 	var peerConns []net.Conn // harness side of TCP connections: must see the end of the connection
 	var peerMu sync.Mutex
@@ -242,10 +242,16 @@ func runCloseScenario(sc closeSc) (obs closeObs) {
 	var udpSocks []net.PacketConn
 	for _, kind := range sc.eps {
 		switch kind {
-		case "custom", "customBW":
+		case "custom", "customBW", "customRF":
 			c := newMemConn(chunkify(append([]byte(nil), stream...), []int{1 + r.Intn(60)}))
 			if kind == "customBW" {
 				c.blockAt = 0
+			}
+			if kind == "customRF" {
+				// the transport's Read fails hard once while the node is open (its channel closes and the endpoint goes on);
+				// the transport is still closed exactly once, by Close
+				c.endErr, c.endErrOnce = errors.New("transport: input/output error"), true
+				rfConns = append(rfConns, c)
 			}
 			customs = append(customs, c)
 			eps = append(eps, gomavlib.EndpointCustom{ReadWriteCloser: c})
@@ -465,6 +471,24 @@ func runCloseScenario(sc closeSc) (obs closeObs) {
 	}
 	defer func() { close(stormStop); stormWG.Wait() }()
 	time.Sleep(time.Duration(sc.delayUs) * time.Microsecond)
+	if sc.consumer == "run" {
+		// transports whose Read fails: let the failure happen (and be handled) while the node is open
+		for _, c := range rfConns {
+			dl := time.Now().Add(300 * time.Millisecond)
+			for time.Now().Before(dl) {
+				c.mu.Lock()
+				g := c.endErrGiven
+				c.mu.Unlock()
+				if g {
+					break
+				}
+				time.Sleep(200 * time.Microsecond)
+			}
+		}
+		if len(rfConns) > 0 {
+			time.Sleep(time.Duration(sc.delayUs%3000) * time.Microsecond)
+		}
+	}
 	if sc.peerDrop {
 		peerMu.Lock()
 		for _, c := range peerConns {
@@ -668,7 +692,7 @@ func runInitFail(r *rngT) (string, closeObs) {
 }
 
 func genC12(r *rngT, n int, tier string) {
-	kinds := []string{"custom", "customBW", "tcps", "udps", "tcpc-up", "tcpc-down", "udpc", "serial-up", "serial-down", "bcast", "serialBW"}
+	kinds := []string{"custom", "customBW", "customRF", "tcps", "udps", "tcpc-up", "tcpc-down", "udpc", "serial-up", "serial-down", "bcast", "serialBW"}
 	if g := waitNoLibGoroutines(time.Second); g != 0 {
 		emit("closecheck baseline ret=1,evclosed=1,gor="+fmt.Sprint(g)+",ports=-,peers=-,custom=-,late=1,panics=0 -", "ok")
 	}
@@ -706,6 +730,11 @@ func genC12(r *rngT, n int, tier string) {
 			sc.consumer = "stop0"
 		default:
 			sc.consumer = fmt.Sprintf("stop%d", 1+r.Intn(6))
+		}
+		for _, k := range sc.eps {
+			if k == "customRF" && sc.seed%2 == 0 {
+				sc.consumer = "run"
+			}
 		}
 		switch r.Intn(4) {
 		case 0:
